@@ -1,7 +1,1652 @@
-//! C07 — TODO
-use mc_core::Ctx;
+//! C07 — signer registration requires a genuine, pool-bound, stake-bound key.
+//!
+//! Bounded exhaustive enumeration of registrations through the real
+//! `ProtocolKeyRegistration::{init, register, close}` (mithril-common → mithril-stm), through the call
+//! sequence of the aggregator's `MithrilSignerRegistrationVerifier::verify` (mirrored here, the
+//! aggregator crate is not linked) and through `SignerBuilder::new`.
+//!
+//! Space: two pools A, B (in the stake distribution) and an outsider pool C, each with a real cold
+//! key, Sum6 KES key, operational certificate, BLS key + proof of possession; KES signatures made at
+//! chosen evolutions. Enumerated: every A/B splice of the components, every single (quick: also
+//! pairs for one base; thorough: pairs for all bases) deviation of a component from an honest
+//! registration, the full (signing evolution × announced evolution) rectangle, stake distribution
+//! variants and sequences of registrations in one key registration.
+//!
+//! Oracle (`c07/reference.rs`, primitive libraries only): accepted ⇒ the conjunction of the
+//! property holds; the returned party id is the pool id of the cold key; the stake recorded for
+//! the key is the stake distribution's value for that pool; honest registrations are accepted.
 
-pub fn run(_ctx: &Ctx) -> ! {
-    eprintln!("C07: not implemented");
-    std::process::exit(2)
+use std::collections::BTreeMap;
+use std::sync::Arc;
+
+use ed25519_dalek::Signer as _;
+use kes_summed_ed25519::kes::{Sum6Kes, Sum6KesSig};
+use kes_summed_ed25519::traits::KesSk;
+use mc_core::{Ctx, Report, catch, par_map};
+use mithril_common::StdResult;
+use mithril_common::crypto_helper::{
+    ColdKeyGenerator, KesEvolutions, KesPeriod, KesSigner, KesSignerStandard, OpCert, OpCertWithoutColdVerificationKey,
+    ProtocolInitializer, ProtocolKey, ProtocolKeyRegistration, ProtocolOpCert,
+    ProtocolSignerVerificationKeyForConcatenation, ProtocolSignerVerificationKeySignatureForConcatenation,
+    SignerRegistrationParameters, Sum6KesBytes,
+};
+use mithril_common::entities::{ProtocolParameters, Signer, SignerWithStake, StakeDistribution};
+use mithril_common::protocol::SignerBuilder;
+use mithril_common::test::crypto_helper::SerDeShelleyFileFormatTestExtension;
+use rand_chacha::ChaCha20Rng;
+use rand_core::SeedableRng;
+use serde::{Deserialize, Serialize};
+use serde_json::{Value, json};
+
+mod reference;
+use reference as rf;
+
+/// The forged-from-public-values proof of possession (see `family_rogue`) satisfies the two
+/// pairing equations the implementation checks, so the oracle — which restates "its proof of
+/// possession is valid" by those equations — does not flag it. It is reported as an observation.
+const POP_FORGERY_IS_VIOLATION: bool = false;
+
+const KES_SK_LEN: usize = 612; // Sum6Kes::SIZE + 4
+
+// ------------------------------------------------------------------------------------------------
+// raw registrations (what is written to replay files)
+// ------------------------------------------------------------------------------------------------
+
+mod hexser {
+    use serde::{Deserialize, Deserializer, Serializer};
+    pub fn serialize<S: Serializer>(v: &Vec<u8>, s: S) -> Result<S::Ok, S::Error> {
+        s.serialize_str(&hex::encode(v))
+    }
+    pub fn deserialize<'de, D: Deserializer<'de>>(d: D) -> Result<Vec<u8>, D::Error> {
+        let s = String::deserialize(d)?;
+        hex::decode(s).map_err(serde::de::Error::custom)
+    }
+}
+mod hexopt {
+    use serde::{Deserialize, Deserializer, Serializer};
+    pub fn serialize<S: Serializer>(v: &Option<Vec<u8>>, s: S) -> Result<S::Ok, S::Error> {
+        match v {
+            Some(v) => s.serialize_some(&hex::encode(v)),
+            None => s.serialize_none(),
+        }
+    }
+    pub fn deserialize<'de, D: Deserializer<'de>>(d: D) -> Result<Option<Vec<u8>>, D::Error> {
+        let s = Option::<String>::deserialize(d)?;
+        s.map(|s| hex::decode(s).map_err(serde::de::Error::custom)).transpose()
+    }
+}
+
+#[derive(Clone, Debug, Serialize, Deserialize, PartialEq, Eq, Hash)]
+struct RawCert {
+    #[serde(with = "hexser")]
+    cold_vk: Vec<u8>,
+    #[serde(with = "hexser")]
+    kes_vk: Vec<u8>,
+    issue_number: u64,
+    start_kes_period: u64,
+    #[serde(with = "hexser")]
+    cert_sig: Vec<u8>,
+}
+
+#[derive(Clone, Debug, Serialize, Deserialize, PartialEq, Eq, Hash)]
+struct Raw {
+    /// claimed party id
+    party_id: Option<String>,
+    cert: Option<RawCert>,
+    #[serde(with = "hexser")]
+    vk: Vec<u8>,
+    #[serde(with = "hexser")]
+    k1: Vec<u8>,
+    #[serde(with = "hexser")]
+    k2: Vec<u8>,
+    #[serde(with = "hexopt")]
+    kes_sig: Option<Vec<u8>>,
+    /// announced number of KES evolutions
+    announced: Option<u64>,
+}
+
+#[derive(Clone, Debug, Serialize, Deserialize, Hash)]
+struct Reg {
+    raw: Raw,
+    /// generator's knowledge: produced exactly as an honest signer does, nothing altered
+    honest: bool,
+    /// claimed stake (only meaningful on the `builder` route, where records carry one)
+    claimed_stake: Option<u64>,
+}
+
+#[derive(Clone, Debug, Serialize, Deserialize, Hash, PartialEq, Eq)]
+enum Route {
+    /// `ProtocolKeyRegistration::init(dist)`, `register` for every registration in order, `close`
+    Register,
+    /// the aggregator verifier's call sequence, once per registration (fresh key registration each
+    /// time, KES evolutions = chain period − certificate start period)
+    Verifier { chain_kes_period: Option<u64> },
+    /// `SignerBuilder::new(list of SignerWithStake)`
+    Builder,
+}
+
+#[derive(Clone, Debug, Serialize, Deserialize, Hash)]
+struct Case {
+    family: String,
+    label: String,
+    route: Route,
+    dist: Vec<(String, u64)>,
+    regs: Vec<Reg>,
+}
+
+// ------------------------------------------------------------------------------------------------
+// test material
+// ------------------------------------------------------------------------------------------------
+
+struct Pool {
+    name: &'static str,
+    cold_sk: ed25519_dalek::SigningKey,
+    cold_vk: [u8; 32],
+    /// secret KES key bytes after t evolutions, t = 0..=63
+    kes_sk: Vec<Vec<u8>>,
+    kes_vk: [u8; 32],
+    issue: u64,
+    start: u64,
+    cert_sig: [u8; 64],
+    pool_id: String,
+    pool_hash_hex: String,
+    bls: BlsKey,
+    stake: u64,
+}
+
+#[derive(Clone)]
+struct BlsKey {
+    seed: u8,
+    vk: [u8; 96],
+    k1: [u8; 48],
+    k2: [u8; 48],
+}
+
+impl BlsKey {
+    fn vkpop(&self) -> Vec<u8> {
+        [&self.vk[..], &self.k1[..], &self.k2[..]].concat()
+    }
+}
+
+struct Mat {
+    pools: Vec<Pool>,
+    /// a BLS key that belongs to no pool
+    fresh: BlsKey,
+    /// `fresh − pools[1]`: key and proof of possession computed from public values only
+    rogue: BlsKey,
+    params: ProtocolParameters,
+}
+
+fn stm_params() -> mithril_stm::Parameters {
+    mithril_stm::Parameters { m: 10, k: 3, phi_f: 0.8 }
+}
+
+fn bls_key(seed: u8) -> BlsKey {
+    let mut rng = ChaCha20Rng::from_seed([seed; 32]);
+    let init = mithril_stm::Initializer::new(stm_params(), 1, &mut rng);
+    let b = init.get_verification_key_proof_of_possession_for_concatenation().to_bytes();
+    BlsKey { seed, vk: b[..96].try_into().unwrap(), k1: b[96..144].try_into().unwrap(), k2: b[144..].try_into().unwrap() }
+}
+
+fn g1_sub(a: &[u8; 48], b: &[u8; 48]) -> [u8; 48] {
+    use blst::*;
+    unsafe {
+        let (mut pa, mut pb) = (blst_p1_affine::default(), blst_p1_affine::default());
+        assert!(blst_p1_uncompress(&mut pa, a.as_ptr()) == BLST_ERROR::BLST_SUCCESS);
+        assert!(blst_p1_uncompress(&mut pb, b.as_ptr()) == BLST_ERROR::BLST_SUCCESS);
+        let (mut ja, mut jb, mut out) = (blst_p1::default(), blst_p1::default(), blst_p1::default());
+        blst_p1_from_affine(&mut ja, &pa);
+        blst_p1_from_affine(&mut jb, &pb);
+        blst_p1_cneg(&mut jb, true);
+        blst_p1_add_or_double(&mut out, &ja, &jb);
+        let mut bytes = [0u8; 48];
+        blst_p1_compress(bytes.as_mut_ptr(), &out);
+        bytes
+    }
+}
+
+fn g2_sub(a: &[u8; 96], b: &[u8; 96]) -> [u8; 96] {
+    use blst::*;
+    unsafe {
+        let (mut pa, mut pb) = (blst_p2_affine::default(), blst_p2_affine::default());
+        assert!(blst_p2_uncompress(&mut pa, a.as_ptr()) == BLST_ERROR::BLST_SUCCESS);
+        assert!(blst_p2_uncompress(&mut pb, b.as_ptr()) == BLST_ERROR::BLST_SUCCESS);
+        let (mut ja, mut jb, mut out) = (blst_p2::default(), blst_p2::default(), blst_p2::default());
+        blst_p2_from_affine(&mut ja, &pa);
+        blst_p2_from_affine(&mut jb, &pb);
+        blst_p2_cneg(&mut jb, true);
+        blst_p2_add_or_double(&mut out, &ja, &jb);
+        let mut bytes = [0u8; 96];
+        blst_p2_compress(bytes.as_mut_ptr(), &out);
+        bytes
+    }
+}
+
+fn make_pool(name: &'static str, seed: u8, issue: u64, start: u64, stake: u64) -> Pool {
+    let cold_sk = ColdKeyGenerator::create_deterministic_keypair([seed; 32]);
+    let cold_vk = cold_sk.verifying_key().to_bytes();
+    let mut buf = [0u8; KES_SK_LEN];
+    let mut kseed = [seed.wrapping_add(100); 32];
+    let (mut sk, pk) = Sum6Kes::keygen(&mut buf, &mut kseed);
+    let mut kes_sk = vec![sk.clone_sk()];
+    for _ in 1..64 {
+        sk.update().expect("Sum6 key evolves 63 times");
+        kes_sk.push(sk.clone_sk());
+    }
+    assert!(sk.update().is_err(), "a Sum6 key has exactly 64 evolutions");
+    let kes_vk: [u8; 32] = pk.as_bytes().try_into().unwrap();
+    let cert_sig = cold_sk.sign(&rf::opcert_signable(&kes_vk, issue, start)).to_bytes();
+    Pool {
+        name,
+        cold_vk,
+        kes_sk,
+        kes_vk,
+        issue,
+        start,
+        cert_sig,
+        pool_id: rf::pool_id(&cold_vk),
+        pool_hash_hex: hex::encode(rf::blake2b_224(&cold_vk)),
+        bls: bls_key(seed.wrapping_add(50)),
+        stake,
+        cold_sk,
+    }
+}
+
+fn kes_sign(pool: &Pool, at: u32, msg: &[u8]) -> Vec<u8> {
+    let mut b = pool.kes_sk[at as usize].clone();
+    let sk = Sum6Kes::from_bytes(&mut b).expect("evolved KES key decodes");
+    assert_eq!(sk.get_period(), at);
+    sk.sign(msg).to_bytes().to_vec()
+}
+
+fn material() -> Mat {
+    let pools = vec![
+        make_pool("A", 1, 3, 10, 100),
+        make_pool("B", 2, 7, 20, 250),
+        make_pool("C", 3, 1, 0, 40),
+    ];
+    let fresh = bls_key(77);
+    let b = &pools[1].bls;
+    let rogue = BlsKey { seed: 0, vk: g2_sub(&fresh.vk, &b.vk), k1: g1_sub(&fresh.k1, &b.k1), k2: g1_sub(&fresh.k2, &b.k2) };
+    Mat { pools, fresh, rogue, params: ProtocolParameters { k: 3, m: 10, phi_f: 0.8 } }
+}
+
+/// Produce the honest registration of pool `p` at evolution `t` through the real signer-side code
+/// (`KesSignerStandard` reading Shelley files, `ProtocolInitializer::setup`) and require that it is
+/// byte-identical to what this harness generates with the primitive libraries.
+fn cross_check_with_real_signer(ctx: &Ctx, m: &Mat, rep: &mut Report) {
+    let dir = ctx.scratch();
+    for (pi, p) in m.pools.iter().enumerate() {
+        let sk_path = dir.join(format!("kes-{}.skey", p.name));
+        let cert_path = dir.join(format!("opcert-{}.cert", p.name));
+        let mut kb = Sum6KesBytes([0u8; KES_SK_LEN]);
+        kb.0.copy_from_slice(&p.kes_sk[0]);
+        kb.to_file(&sk_path).expect("write KES key");
+        let opcert = OpCert::new(
+            kes_summed_ed25519::PublicKey::from_bytes(&p.kes_vk).unwrap(),
+            p.issue,
+            KesPeriod(p.start),
+            p.cold_sk.clone(),
+        );
+        opcert.to_file(&cert_path).expect("write opcert");
+        if opcert.get_certificate_signature().to_bytes() != p.cert_sig || opcert.get_cold_verification_key().to_bytes() != p.cold_vk {
+            rep.machinery_error(format!("pool {}: OpCert::new disagrees with the directly signed certificate", p.name));
+        }
+        for t in [0u32, 1, 63] {
+            let signer: Arc<dyn KesSigner> = Arc::new(KesSignerStandard::new(sk_path.clone(), cert_path.clone()));
+            let mut rng = ChaCha20Rng::from_seed([p.bls.seed; 32]);
+            let init = ProtocolInitializer::setup(stm_params(), Some(signer), Some(KesPeriod(p.start + t as u64)), p.stake, &mut rng)
+                .expect("real signer setup");
+            let vkpop = init.verification_key_for_concatenation().to_bytes().to_vec();
+            let sig = init.verification_key_signature_for_concatenation().map(|s| s.to_bytes().to_vec());
+            let mine = kes_sign(p, t, &p.bls.vkpop());
+            if vkpop != p.bls.vkpop() || sig.as_deref() != Some(&mine[..]) {
+                rep.machinery_error(format!("pool {pi} t={t}: real signer output differs from the harness' honest registration"));
+            }
+            rep.add_extra("honest_registrations_cross_checked_with_real_signer_code", 1);
+        }
+    }
+}
+
+// ------------------------------------------------------------------------------------------------
+// symbolic registrations
+// ------------------------------------------------------------------------------------------------
+
+#[derive(Clone)]
+enum CertSig {
+    Bytes([u8; 64]),
+    /// the cold key of pool i signs whatever body is submitted
+    SignedBy(usize),
+}
+
+#[derive(Clone)]
+enum Over {
+    /// the key bytes as submitted (vk ‖ k1 ‖ k2)
+    Submitted,
+    Bytes(Vec<u8>),
+}
+
+#[derive(Clone)]
+enum Kes {
+    None,
+    Sign { pool: usize, at: u32, over: Over, flip_chunk: Option<usize> },
+}
+
+#[derive(Clone)]
+struct RegB {
+    has_cert: bool,
+    cold_vk: [u8; 32],
+    kes_vk: [u8; 32],
+    issue: u64,
+    start: u64,
+    cert_sig: CertSig,
+    vk: [u8; 96],
+    k1: [u8; 48],
+    k2: [u8; 48],
+    kes: Kes,
+    announced: Option<u64>,
+    party: Option<String>,
+    claimed_stake: Option<u64>,
+    honest: bool,
+}
+
+impl RegB {
+    /// the registration an honest signer of pool `p` makes at evolution `t`.
+    /// `operator = true`: same bytes, but certificate and KES signature are re-made over whatever
+    /// the later deviations put into the registration (the adversary who owns pool `p`'s keys)
+    fn honest(m: &Mat, p: usize, t: u32, operator: bool) -> RegB {
+        let pl = &m.pools[p];
+        RegB {
+            has_cert: true,
+            cold_vk: pl.cold_vk,
+            kes_vk: pl.kes_vk,
+            issue: pl.issue,
+            start: pl.start,
+            cert_sig: if operator { CertSig::SignedBy(p) } else { CertSig::Bytes(pl.cert_sig) },
+            vk: pl.bls.vk,
+            k1: pl.bls.k1,
+            k2: pl.bls.k2,
+            kes: Kes::Sign { pool: p, at: t, over: if operator { Over::Submitted } else { Over::Bytes(pl.bls.vkpop()) }, flip_chunk: None },
+            announced: Some(t as u64),
+            party: Some(pl.pool_id.clone()),
+            claimed_stake: Some(pl.stake),
+            honest: true,
+        }
+    }
+
+    fn key(&mut self, k: &BlsKey) {
+        self.vk = k.vk;
+        self.k1 = k.k1;
+        self.k2 = k.k2;
+    }
+
+    fn resolve(&self, m: &Mat) -> Reg {
+        let submitted = [&self.vk[..], &self.k1[..], &self.k2[..]].concat();
+        let cert = self.has_cert.then(|| RawCert {
+            cold_vk: self.cold_vk.to_vec(),
+            kes_vk: self.kes_vk.to_vec(),
+            issue_number: self.issue,
+            start_kes_period: self.start,
+            cert_sig: match &self.cert_sig {
+                CertSig::Bytes(b) => b.to_vec(),
+                CertSig::SignedBy(i) => m.pools[*i].cold_sk.sign(&rf::opcert_signable(&self.kes_vk, self.issue, self.start)).to_bytes().to_vec(),
+            },
+        });
+        let kes_sig = match &self.kes {
+            Kes::None => None,
+            Kes::Sign { pool, at, over, flip_chunk } => {
+                let msg = match over {
+                    Over::Submitted => submitted.clone(),
+                    Over::Bytes(b) => b.clone(),
+                };
+                let mut s = kes_sign(&m.pools[*pool], *at, &msg);
+                if let Some(c) = flip_chunk {
+                    s[c * 32] ^= 1;
+                }
+                Some(s)
+            }
+        };
+        Reg {
+            raw: Raw {
+                party_id: self.party.clone(),
+                cert,
+                vk: self.vk.to_vec(),
+                k1: self.k1.to_vec(),
+                k2: self.k2.to_vec(),
+                kes_sig,
+                announced: self.announced,
+            },
+            honest: self.honest,
+            claimed_stake: self.claimed_stake,
+        }
+    }
+}
+
+fn flip<const N: usize>(b: &[u8; N], bit: usize) -> [u8; N] {
+    let mut o = *b;
+    o[bit / 8] ^= 1 << (bit % 8);
+    o
+}
+
+// stake distributions -----------------------------------------------------------------------------
+
+const DISTS: [&str; 11] =
+    ["both", "A-only", "B-only", "swapped-stakes", "empty", "with-C", "A-zero", "A-max", "hex-ids", "upper-case-ids", "with-weak"];
+
+fn weak_cold_key() -> [u8; 32] {
+    let mut k = [0u8; 32];
+    k[0] = 1; // the neutral element of the curve
+    k
+}
+
+fn dist(m: &Mat, name: &str) -> Vec<(String, u64)> {
+    let (a, b, c) = (&m.pools[0], &m.pools[1], &m.pools[2]);
+    match name {
+        "both" => vec![(a.pool_id.clone(), a.stake), (b.pool_id.clone(), b.stake)],
+        "A-only" => vec![(a.pool_id.clone(), a.stake)],
+        "B-only" => vec![(b.pool_id.clone(), b.stake)],
+        "swapped-stakes" => vec![(a.pool_id.clone(), b.stake), (b.pool_id.clone(), a.stake)],
+        "empty" => vec![],
+        "with-C" => vec![(a.pool_id.clone(), a.stake), (b.pool_id.clone(), b.stake), (c.pool_id.clone(), c.stake)],
+        "A-zero" => vec![(a.pool_id.clone(), 0), (b.pool_id.clone(), b.stake)],
+        "A-max" => vec![(a.pool_id.clone(), u64::MAX), (b.pool_id.clone(), b.stake)],
+        "hex-ids" => vec![(a.pool_hash_hex.clone(), a.stake), (b.pool_hash_hex.clone(), b.stake)],
+        "upper-case-ids" => vec![(a.pool_id.to_uppercase(), a.stake), (b.pool_id.to_uppercase(), b.stake)],
+        "with-weak" => vec![(a.pool_id.clone(), a.stake), (b.pool_id.clone(), b.stake), (rf::pool_id(&weak_cold_key()), 77)],
+        _ => unreachable!(),
+    }
+}
+
+// ------------------------------------------------------------------------------------------------
+// case builders
+// ------------------------------------------------------------------------------------------------
+
+#[derive(Clone)]
+struct CaseB {
+    dist: &'static str,
+    prior: Vec<RegB>,
+    reg: RegB,
+}
+
+struct Dev {
+    /// deviations of the same group are alternatives (never combined with each other)
+    group: &'static str,
+    name: String,
+    keeps_honest: bool,
+    f: Box<dyn Fn(&Mat, &mut CaseB) + Sync + Send>,
+}
+
+fn dev(group: &'static str, name: impl Into<String>, f: impl Fn(&Mat, &mut CaseB) + Sync + Send + 'static) -> Dev {
+    Dev { group, name: name.into(), keeps_honest: false, f: Box::new(f) }
+}
+
+fn dev_h(group: &'static str, name: impl Into<String>, f: impl Fn(&Mat, &mut CaseB) + Sync + Send + 'static) -> Dev {
+    Dev { group, name: name.into(), keeps_honest: true, f: Box::new(f) }
+}
+
+const BIG_EVOLUTIONS: [u64; 7] =
+    [(1 << 32) - 2, (1 << 32) - 1, 1 << 32, (1 << 32) + 1, 1 << 63, u64::MAX - 1, u64::MAX];
+
+/// every single deviation from the honest registration of pool `p` (other pool `q`) signed at `t`
+fn deviations(p: usize, t: u32) -> Vec<Dev> {
+    let q = 1 - p;
+    let c = 2usize;
+    let mut d: Vec<Dev> = vec![];
+    // cold key
+    for o in [q, c] {
+        d.push(dev("cold", format!("cold-key-of-{o}"), move |m, x| x.reg.cold_vk = m.pools[o].cold_vk));
+    }
+    for bit in [0usize, 1, 2, 7, 100, 255] {
+        d.push(dev("cold", format!("cold-key-bit-{bit}"), move |_, x| x.reg.cold_vk = flip(&x.reg.cold_vk, bit)));
+    }
+    // certificate body
+    for o in [q, c] {
+        d.push(dev("kes_vk", format!("cert-kes-vk-of-{o}"), move |m, x| x.reg.kes_vk = m.pools[o].kes_vk));
+    }
+    for bit in [0usize, 255] {
+        d.push(dev("kes_vk", format!("cert-kes-vk-bit-{bit}"), move |_, x| x.reg.kes_vk = flip(&x.reg.kes_vk, bit)));
+    }
+    d.push(dev("issue", "issue-of-other", move |m, x| x.reg.issue = m.pools[q].issue));
+    d.push(dev("issue", "issue+1", |_, x| x.reg.issue += 1));
+    d.push(dev("issue", "issue-1", |_, x| x.reg.issue -= 1));
+    d.push(dev("issue", "issue=0", |_, x| x.reg.issue = 0));
+    d.push(dev("issue", "issue=max", |_, x| x.reg.issue = u64::MAX));
+    d.push(dev("start", "start-of-other", move |m, x| x.reg.start = m.pools[q].start));
+    d.push(dev("start", "start+1", |_, x| x.reg.start += 1));
+    d.push(dev("start", "start-1", |_, x| x.reg.start -= 1));
+    d.push(dev("start", "start=0", |_, x| x.reg.start = 0));
+    d.push(dev("start", "start=max", |_, x| x.reg.start = u64::MAX));
+    // certificate signature
+    for o in [q, c] {
+        d.push(dev("cert_sig", format!("cert-sig-of-{o}"), move |m, x| x.reg.cert_sig = CertSig::Bytes(m.pools[o].cert_sig)));
+        d.push(dev("cert_sig", format!("cert-signed-by-cold-key-of-{o}"), move |_, x| x.reg.cert_sig = CertSig::SignedBy(o)));
+    }
+    d.push(dev("cert_sig", "cert-sig-zero", |_, x| x.reg.cert_sig = CertSig::Bytes([0u8; 64])));
+    for bit in [0usize, 255, 256, 500, 511] {
+        d.push(dev("cert_sig", format!("cert-sig-bit-{bit}"), move |m, x| {
+            x.reg.cert_sig = CertSig::Bytes(flip(&m.pools[p].cert_sig, bit));
+        }));
+    }
+    // the whole certificate missing
+    d.push(dev("cert", "no-certificate", |_, x| x.reg.has_cert = false));
+    d.push(dev("cert", "no-certificate-no-kes", |_, x| {
+        x.reg.has_cert = false;
+        x.reg.kes = Kes::None;
+        x.reg.announced = None;
+    }));
+    // KES signature
+    d.push(dev("kes", "no-kes-signature", |_, x| x.reg.kes = Kes::None));
+    for o in [q, c] {
+        d.push(dev("kes", format!("kes-by-{o}-over-submitted"), move |_, x| {
+            x.reg.kes = Kes::Sign { pool: o, at: t, over: Over::Submitted, flip_chunk: None }
+        }));
+        d.push(dev("kes", format!("kes-by-{o}-over-its-own-key"), move |m, x| {
+            x.reg.kes = Kes::Sign { pool: o, at: t, over: Over::Bytes(m.pools[o].bls.vkpop()), flip_chunk: None }
+        }));
+        d.push(dev("kes", format!("kes-by-self-over-key-of-{o}"), move |m, x| {
+            x.reg.kes = Kes::Sign { pool: p, at: t, over: Over::Bytes(m.pools[o].bls.vkpop()), flip_chunk: None }
+        }));
+    }
+    d.push(dev("kes", "kes-over-vk-without-pop", move |_, x| {
+        x.reg.kes = Kes::Sign { pool: p, at: t, over: Over::Bytes(x.reg.vk.to_vec()), flip_chunk: None }
+    }));
+    d.push(dev("kes", "kes-over-empty", move |_, x| {
+        x.reg.kes = Kes::Sign { pool: p, at: t, over: Over::Bytes(vec![]), flip_chunk: None }
+    }));
+    d.push(dev("kes", "kes-over-key-plus-suffix", move |m, x| {
+        let mut b = m.pools[p].bls.vkpop();
+        b.push(0);
+        x.reg.kes = Kes::Sign { pool: p, at: t, over: Over::Bytes(b), flip_chunk: None }
+    }));
+    d.push(dev("kes", "kes-over-certificate-body", move |m, x| {
+        let pl = &m.pools[p];
+        x.reg.kes = Kes::Sign { pool: p, at: t, over: Over::Bytes(rf::opcert_signable(&pl.kes_vk, pl.issue, pl.start).to_vec()), flip_chunk: None }
+    }));
+    for chunk in 0..14usize {
+        d.push(dev("kes", format!("kes-sig-flip-chunk-{chunk}"), move |_, x| {
+            if let Kes::Sign { flip_chunk, .. } = &mut x.reg.kes {
+                *flip_chunk = Some(chunk);
+            }
+        }));
+    }
+    for dt in [-2i64, -1, 1, 2] {
+        let at = t as i64 + dt;
+        if (0..64).contains(&at) {
+            d.push(dev("kes", format!("kes-made-at-t{dt:+}"), move |_, x| {
+                if let Kes::Sign { at: a, .. } = &mut x.reg.kes {
+                    *a = at as u32;
+                }
+            }));
+        }
+    }
+    // announced evolution
+    d.push(dev("announced", "announced-missing", |_, x| x.reg.announced = None));
+    let mut anns: Vec<u64> = vec![0, 62, 63, 64, 65, 66];
+    for dt in [-2i64, -1, 1, 2] {
+        if t as i64 + dt >= 0 {
+            anns.push((t as i64 + dt) as u64);
+        }
+    }
+    anns.extend(BIG_EVOLUTIONS);
+    anns.sort();
+    anns.dedup();
+    for a in anns {
+        if a != t as u64 {
+            d.push(dev("announced", format!("announced={a}"), move |_, x| x.reg.announced = Some(a)));
+        }
+    }
+    // BLS key and proof of possession
+    d.push(dev("key", "key+pop-of-other", move |m, x| {
+        let k = m.pools[q].bls.clone();
+        x.reg.key(&k)
+    }));
+    d.push(dev("key", "key+pop-fresh", |m, x| {
+        let k = m.fresh.clone();
+        x.reg.key(&k)
+    }));
+    d.push(dev("key", "vk-of-other", move |m, x| x.reg.vk = m.pools[q].bls.vk));
+    d.push(dev("key", "vk-fresh", |m, x| x.reg.vk = m.fresh.vk));
+    for bit in [0usize, 8, 767] {
+        d.push(dev("key", format!("vk-bit-{bit}"), move |_, x| x.reg.vk = flip(&x.reg.vk, bit)));
+    }
+    d.push(dev("k1", "k1-of-other", move |m, x| x.reg.k1 = m.pools[q].bls.k1));
+    d.push(dev("k1", "k1-fresh", |m, x| x.reg.k1 = m.fresh.k1));
+    d.push(dev("k1", "k1=k2", |_, x| x.reg.k1 = x.reg.k2));
+    for bit in [0usize, 8, 383] {
+        d.push(dev("k1", format!("k1-bit-{bit}"), move |_, x| x.reg.k1 = flip(&x.reg.k1, bit)));
+    }
+    d.push(dev("k1", "k1=infinity", |_, x| {
+        x.reg.k1 = [0u8; 48];
+        x.reg.k1[0] = 0xc0;
+    }));
+    d.push(dev("k2", "k2-of-other", move |m, x| x.reg.k2 = m.pools[q].bls.k2));
+    d.push(dev("k2", "k2-fresh", |m, x| x.reg.k2 = m.fresh.k2));
+    d.push(dev("k2", "k2=k1", |_, x| x.reg.k2 = x.reg.k1));
+    for bit in [0usize, 8, 383] {
+        d.push(dev("k2", format!("k2-bit-{bit}"), move |_, x| x.reg.k2 = flip(&x.reg.k2, bit)));
+    }
+    d.push(dev("k2", "k2=infinity", |_, x| {
+        x.reg.k2 = [0u8; 48];
+        x.reg.k2[0] = 0xc0;
+    }));
+    d.push(dev("k2", "k2=zero-bytes", |_, x| x.reg.k2 = [0u8; 48]));
+    // claimed party id
+    d.push(dev("party", "party-id-missing", |_, x| x.reg.party = None));
+    d.push(dev("party", "party-id-empty", |_, x| x.reg.party = Some(String::new())));
+    for o in [q, c] {
+        d.push(dev("party", format!("party-id-of-{o}"), move |m, x| x.reg.party = Some(m.pools[o].pool_id.clone())));
+    }
+    d.push(dev("party", "party-id-garbage", |_, x| x.reg.party = Some("pool1notapool".into())));
+    d.push(dev("party", "party-id-hex-hash", move |m, x| x.reg.party = Some(m.pools[p].pool_hash_hex.clone())));
+    // stake distribution of the round
+    for name in DISTS {
+        if name != "both" {
+            let keeps = matches!(name, "swapped-stakes" | "with-C" | "with-weak") || (name == "A-only" && p == 0) || (name == "B-only" && p == 1) || (name == "A-max" && p == 1) || (name == "A-zero" && p == 1);
+            let mut dv = dev("dist", format!("dist={name}"), move |_, x| x.dist = name);
+            dv.keeps_honest = keeps;
+            d.push(dv);
+        }
+    }
+    // earlier registrations in the same round
+    d.push(dev("prior", "prior:same-registration", move |m, x| x.prior.push(RegB::honest(m, p, t, false))));
+    d.push(dev("prior", "prior:other-pool-registered-this-key", move |m, x| {
+        let mut r = RegB::honest(m, q, 1, true);
+        let k = m.pools[p].bls.clone();
+        r.key(&k);
+        r.honest = false;
+        x.prior.push(r);
+    }));
+    d.push(dev_h("prior", "prior:other-pool-honest", move |m, x| x.prior.push(RegB::honest(m, q, 1, false))));
+    d
+}
+
+fn build_case(m: &Mat, family: &str, label: String, cb: &CaseB) -> Case {
+    let mut regs: Vec<Reg> = cb.prior.iter().map(|r| r.resolve(m)).collect();
+    regs.push(cb.reg.resolve(m));
+    Case { family: family.into(), label, route: Route::Register, dist: dist(m, cb.dist), regs }
+}
+
+/// the ball of radius `depth` around the honest registration of (p, t), for the outsider adversary
+/// (fixed signatures, `operator = false`) or the operator adversary (re-signs with the pool's own
+/// keys); `first = None`: the honest centre, `first = Some(i)`: deviation i alone and (depth 2)
+/// combined with every later deviation of another group
+fn family_ball(m: &Mat, p: usize, t: u32, depth: usize, operator: bool, first: Option<usize>, out: &mut Vec<Case>) {
+    let devs = deviations(p, t);
+    let base = CaseB { dist: "both", prior: vec![], reg: RegB::honest(m, p, t, operator) };
+    let who = if operator { "operator" } else { "outsider" };
+    let tag = format!("{}@{t}/{who}", m.pools[p].name);
+    let Some(i) = first else {
+        out.push(build_case(m, "ball", format!("{tag}: honest"), &base));
+        return;
+    };
+    let d1 = &devs[i];
+    let mut c1 = base.clone();
+    (d1.f)(m, &mut c1);
+    c1.reg.honest &= d1.keeps_honest;
+    out.push(build_case(m, "ball", format!("{tag}: {}", d1.name), &c1));
+    if depth >= 2 {
+        for d2 in devs.iter().skip(i + 1) {
+            if d2.group == d1.group {
+                continue;
+            }
+            let mut c2 = c1.clone();
+            (d2.f)(m, &mut c2);
+            c2.reg.honest &= d2.keeps_honest;
+            out.push(build_case(m, "ball", format!("{tag}: {} + {}", d1.name, d2.name), &c2));
+        }
+    }
+}
+
+/// every splice of the components of the honest registrations of A and B (both made at `t`)
+fn family_splice(m: &Mat, t: u32, bits_range: std::ops::Range<u32>, out: &mut Vec<Case>) {
+    // two-valued components: cold, kes_vk, issue, start, vk, k1, k2, party;
+    // four-valued: certificate signature {A's, B's, freshly signed by A, by B},
+    //              KES signature {A's, B's honest signature, A's / B's key over the submitted bytes}
+    for bits in bits_range {
+        for cs in 0..4usize {
+            for ks in 0..4usize {
+                let pick = |i: u32| ((bits >> i) & 1) as usize;
+                let mut r = RegB::honest(m, pick(0), t, false);
+                r.kes_vk = m.pools[pick(1)].kes_vk;
+                r.issue = m.pools[pick(2)].issue;
+                r.start = m.pools[pick(3)].start;
+                r.vk = m.pools[pick(4)].bls.vk;
+                r.k1 = m.pools[pick(5)].bls.k1;
+                r.k2 = m.pools[pick(6)].bls.k2;
+                r.party = Some(m.pools[pick(7)].pool_id.clone());
+                r.cert_sig = if cs < 2 { CertSig::Bytes(m.pools[cs].cert_sig) } else { CertSig::SignedBy(cs - 2) };
+                r.kes = if ks < 2 {
+                    Kes::Sign { pool: ks, at: t, over: Over::Bytes(m.pools[ks].bls.vkpop()), flip_chunk: None }
+                } else {
+                    Kes::Sign { pool: ks - 2, at: t, over: Over::Submitted, flip_chunk: None }
+                };
+                let all_a = bits == 0 && (cs == 0 || cs == 2) && (ks == 0 || ks == 2);
+                let all_b = bits == 0xff && (cs == 1 || cs == 3) && (ks == 1 || ks == 3);
+                r.honest = all_a || all_b;
+                let cb = CaseB { dist: "both", prior: vec![], reg: r };
+                out.push(build_case(m, "splice", format!("t={t} components={bits:08b} cert_sig={cs} kes={ks}"), &cb));
+            }
+        }
+    }
+}
+
+/// signing evolution × announced evolution
+fn family_window(m: &Mat, p: usize, ts: &[u32], out: &mut Vec<Case>) {
+    {
+        for &t in ts {
+            let mut anns: Vec<Option<u64>> = (0..=70u64).map(Some).collect();
+            anns.extend(BIG_EVOLUTIONS.iter().map(|a| Some(*a)));
+            anns.push(None);
+            for a in anns {
+                let mut r = RegB::honest(m, p, t, false);
+                r.announced = a;
+                r.honest = a == Some(t as u64);
+                let cb = CaseB { dist: "both", prior: vec![], reg: r };
+                out.push(build_case(m, "window", format!("{} signed-at={t} announced={a:?}", m.pools[p].name), &cb));
+            }
+        }
+    }
+}
+
+/// honest registrations of A, B, C against every stake distribution
+fn family_dist(m: &Mat, out: &mut Vec<Case>) {
+    for p in 0..3 {
+        for name in DISTS {
+            let mut r = RegB::honest(m, p, 1, false);
+            let d = dist(m, name);
+            r.honest = d.iter().any(|(id, s)| *id == m.pools[p].pool_id && *s > 0);
+            let cb = CaseB { dist: name, prior: vec![], reg: r };
+            out.push(build_case(m, "dist", format!("{} honest, dist={name}", m.pools[p].name), &cb));
+        }
+    }
+}
+
+fn sequence_menu(m: &Mat) -> Vec<(String, RegB)> {
+    let mut menu = vec![];
+    for p in 0..3 {
+        menu.push((format!("honest-{}", m.pools[p].name), RegB::honest(m, p, 1, false)));
+    }
+    let mut again = RegB::honest(m, 0, 5, false);
+    again.honest = true;
+    menu.push(("honest-A-signed-at-5".into(), again));
+    for (thief, victim) in [(1usize, 0usize), (0, 1)] {
+        let mut r = RegB::honest(m, thief, 1, true);
+        let k = m.pools[victim].bls.clone();
+        r.key(&k);
+        r.honest = false;
+        menu.push((format!("{}-registers-key-of-{}", m.pools[thief].name, m.pools[victim].name), r));
+    }
+    let mut second = RegB::honest(m, 0, 1, true);
+    second.key(&m.fresh.clone());
+    second.honest = false;
+    menu.push(("A-registers-a-second-key".into(), second));
+    menu
+}
+
+/// sequences of registrations in one key registration
+fn family_sequence(m: &Mat, len: usize, out: &mut Vec<Case>) {
+    let menu = sequence_menu(m);
+    for seq in mc_core::sequences(menu.len(), len) {
+        if seq.len() < 2 {
+            continue;
+        }
+        let regs: Vec<Reg> = seq.iter().map(|i| menu[*i].1.resolve(m)).collect();
+        let label = seq.iter().map(|i| menu[*i].0.clone()).collect::<Vec<_>>().join(" ; ");
+        out.push(Case { family: "sequence".into(), label, route: Route::Register, dist: dist(m, "with-C"), regs });
+    }
+}
+
+/// cold key = neutral element, certificate "signature" (R = neutral element, S = 0)
+fn family_weak(m: &Mat, out: &mut Vec<Case>) {
+    for name in ["both", "with-weak"] {
+        let mut r = RegB::honest(m, 0, 1, true);
+        r.cold_vk = weak_cold_key();
+        let mut sig = [0u8; 64];
+        sig[0] = 1;
+        r.cert_sig = CertSig::Bytes(sig);
+        r.key(&m.fresh.clone());
+        r.party = None;
+        r.honest = false;
+        out.push(build_case(m, "weak-cold-key", format!("neutral-element cold key, dist={name}"), &CaseB { dist: name, prior: vec![], reg: r }));
+    }
+}
+
+/// pool A registers `fresh − key(B)` with a proof of possession computed from B's public proof
+fn family_rogue(m: &Mat, out: &mut Vec<Case>) {
+    let mut r = RegB::honest(m, 0, 1, true);
+    r.key(&m.rogue.clone());
+    r.honest = false;
+    out.push(build_case(m, "rogue-key", "A registers (fresh − key of B) with PoP = PoP(fresh) − PoP(B)".into(), &CaseB { dist: "both", prior: vec![], reg: r.clone() }));
+    // and after B registered: the two keys aggregate to `fresh`
+    out.push(build_case(
+        m,
+        "rogue-key",
+        "B honest ; A registers (fresh − key of B) with PoP = PoP(fresh) − PoP(B)".into(),
+        &CaseB { dist: "both", prior: vec![RegB::honest(m, 1, 1, false)], reg: r },
+    ));
+}
+
+/// the aggregator verifier's call sequence
+fn family_verifier(m: &Mat, p: usize, ts: &[u32], out: &mut Vec<Case>) {
+    {
+        let q = 1 - p;
+        let pl = &m.pools[p];
+        for &t in ts {
+            let mut chains: Vec<Option<u64>> = vec![None, Some(0), Some(pl.start - 1), Some(u64::MAX)];
+            for d in -3i64..=3 {
+                chains.push(Some((pl.start as i64 + t as i64 + d) as u64));
+            }
+            for chain in chains {
+                for msg_ann in [Some(t as u64), None, Some(t as u64 + 7), Some(u64::MAX)] {
+                    for party in [Some(pl.pool_id.clone()), Some(String::new()), Some(m.pools[q].pool_id.clone()), Some("pool1notapool".to_string())] {
+                        for dname in ["both", if p == 0 { "B-only" } else { "A-only" }] {
+                            let mut r = RegB::honest(m, p, t, false);
+                            r.announced = msg_ann;
+                            r.party = party.clone();
+                            // honest: the chain is at the period the signature was made for, the claimed
+                            // party id is the pool's own (or left empty) and the message announces that evolution
+                            r.honest = chain == Some(pl.start + t as u64)
+                                && dname == "both"
+                                && msg_ann == Some(t as u64)
+                                && (party.as_deref() == Some(pl.pool_id.as_str()) || party.as_deref() == Some(""));
+                            out.push(Case {
+                                family: "verifier".into(),
+                                label: format!("{} signed-at={t} chain-period={chain:?} message-evolutions={msg_ann:?} claimed-party={party:?} dist={dname}", pl.name),
+                                route: Route::Verifier { chain_kes_period: chain },
+                                dist: dist(m, dname),
+                                regs: vec![r.resolve(m)],
+                            });
+                        }
+                    }
+                }
+            }
+        }
+    }
+}
+
+/// the verifier route with two registrations of the same key by different pools
+fn family_verifier_same_key(m: &Mat, out: &mut Vec<Case>) {
+    let a = RegB::honest(m, 0, 1, false);
+    let mut thief = RegB::honest(m, 1, 1, true);
+    thief.key(&m.pools[0].bls.clone());
+    thief.honest = false;
+    for (label, regs) in [("A honest ; B registers key of A", vec![a.clone(), thief.clone()]), ("B registers key of A ; A honest", vec![thief, a])] {
+        let start_a = m.pools[0].start;
+        // chain period such that both are inside their windows is impossible with different start
+        // periods; each registration gets its own honest chain period through two cases
+        for chain in [start_a + 1, m.pools[1].start + 1] {
+            out.push(Case {
+                family: "verifier".into(),
+                label: format!("{label} chain-period={chain}"),
+                route: Route::Verifier { chain_kes_period: Some(chain) },
+                dist: dist(m, "both"),
+                regs: regs.iter().map(|r| r.resolve(m)).collect(),
+            });
+        }
+    }
+}
+
+/// lists of stored signer records given to `SignerBuilder::new`
+fn family_builder(m: &Mat, out: &mut Vec<Case>) {
+    let a = RegB::honest(m, 0, 1, false);
+    let b = RegB::honest(m, 1, 1, false);
+    let c = RegB::honest(m, 2, 1, false);
+    let mut lists: Vec<(String, Vec<RegB>)> = vec![
+        ("A".into(), vec![a.clone()]),
+        ("A,B".into(), vec![a.clone(), b.clone()]),
+        ("B,A".into(), vec![b.clone(), a.clone()]),
+        ("A,B,C".into(), vec![a.clone(), b.clone(), c.clone()]),
+        ("A,A".into(), vec![a.clone(), a.clone()]),
+    ];
+    let with = |r: &RegB, f: &dyn Fn(&mut RegB)| {
+        let mut x = r.clone();
+        f(&mut x);
+        x.honest = false;
+        x
+    };
+    let ida = m.pools[0].pool_id.clone();
+    let idb = m.pools[1].pool_id.clone();
+    lists.push(("A(stake 999),B".into(), vec![with(&a, &|x| x.claimed_stake = Some(999)), b.clone()]));
+    lists.push(("A(stake 0),B".into(), vec![with(&a, &|x| x.claimed_stake = Some(0)), b.clone()]));
+    lists.push((
+        "A labelled B, B labelled A".into(),
+        vec![with(&a, &|x| x.party = Some(idb.clone())), with(&b, &|x| x.party = Some(ida.clone()))],
+    ));
+    lists.push(("A labelled garbage".into(), vec![with(&a, &|x| x.party = Some("pool1notapool".into()))]));
+    lists.push(("A labelled garbage, B".into(), vec![with(&a, &|x| x.party = Some("pool1notapool".into())), b.clone()]));
+    lists.push(("A(no announced evolution),B".into(), vec![with(&a, &|x| x.announced = None), b.clone()]));
+    lists.push(("A(announced+7),B".into(), vec![with(&a, &|x| x.announced = Some(8)), b.clone()]));
+    lists.push(("A(announced+2),B".into(), vec![with(&a, &|x| x.announced = Some(3)), b.clone()]));
+    lists.push(("A(no certificate),B".into(), vec![with(&a, &|x| x.has_cert = false), b.clone()]));
+    lists.push(("A(no KES signature),B".into(), vec![with(&a, &|x| x.kes = Kes::None), b.clone()]));
+    lists.push((
+        "A(KES signature of B),B".into(),
+        vec![with(&a, &|x| x.kes = Kes::Sign { pool: 1, at: 1, over: Over::Bytes(m.pools[1].bls.vkpop()), flip_chunk: None }), b.clone()],
+    ));
+    lists.push(("A(key of fresh, not re-signed),B".into(), vec![with(&a, &|x| x.key(&m.fresh.clone())), b.clone()]));
+    lists.push(("A(k2 of B, re-signed),B".into(), vec![
+        {
+            let mut x = RegB::honest(m, 0, 1, true);
+            x.k2 = m.pools[1].bls.k2;
+            x.honest = false;
+            x
+        },
+        b.clone(),
+    ]));
+    lists.push(("A, B registers key of A".into(), vec![a.clone(), {
+        let mut x = RegB::honest(m, 1, 1, true);
+        x.key(&m.pools[0].bls.clone());
+        x.honest = false;
+        x
+    }]));
+    lists.push(("A(certificate of B)".into(), vec![with(&a, &|x| {
+        let pb = &m.pools[1];
+        x.cold_vk = pb.cold_vk;
+        x.kes_vk = pb.kes_vk;
+        x.issue = pb.issue;
+        x.start = pb.start;
+        x.cert_sig = CertSig::Bytes(pb.cert_sig);
+    })]));
+    for (label, regs) in lists {
+        out.push(Case { family: "builder".into(), label, route: Route::Builder, dist: vec![], regs: regs.iter().map(|r| r.resolve(m)).collect() });
+    }
+}
+
+// ------------------------------------------------------------------------------------------------
+// the real code
+// ------------------------------------------------------------------------------------------------
+
+struct Typed {
+    party_id: Option<String>,
+    opcert: Option<ProtocolOpCert>,
+    key: ProtocolSignerVerificationKeyForConcatenation,
+    kes_sig: Option<ProtocolSignerVerificationKeySignatureForConcatenation>,
+    announced: Option<KesEvolutions>,
+}
+
+/// raw values → the typed values of the real API, through the real decoders
+fn decode(raw: &Raw) -> Result<Typed, String> {
+    let opcert = match &raw.cert {
+        None => None,
+        Some(c) => {
+            let body = OpCertWithoutColdVerificationKey::try_new(&c.kes_vk, c.issue_number, KesPeriod(c.start_kes_period), &c.cert_sig)
+                .map_err(|e| format!("certificate body: {e:#}"))?;
+            let cold: [u8; 32] = c.cold_vk.as_slice().try_into().map_err(|_| "cold key length".to_string())?;
+            let cold = ed25519_dalek::VerifyingKey::from_bytes(&cold).map_err(|e| format!("cold key: {e}"))?;
+            Some(ProtocolKey::new(OpCert::from((body, cold))))
+        }
+    };
+    let bytes = [&raw.vk[..], &raw.k1[..], &raw.k2[..]].concat();
+    let key = ProtocolSignerVerificationKeyForConcatenation::from_bytes(&bytes).map_err(|e| format!("verification key: {e:#}"))?;
+    let kes_sig = match &raw.kes_sig {
+        None => None,
+        Some(s) => Some(ProtocolKey::new(Sum6KesSig::from_bytes(s).map_err(|e| format!("KES signature: {e:?}"))?)),
+    };
+    Ok(Typed { party_id: raw.party_id.clone(), opcert, key, kes_sig, announced: raw.announced.map(KesEvolutions) })
+}
+
+enum Real {
+    Accepted(String),
+    Rejected(String),
+    Panicked(String),
+}
+
+fn classify_error(e: &str) -> &'static str {
+    for (needle, class) in [
+        ("missing operational certificate", "OpCertMissing"),
+        ("invalid operational certificate", "OpCertInvalid"),
+        ("Operational certificate", "OpCertInvalid"),
+        ("missing KES signature", "KesSignatureMissing"),
+        ("missing KES period", "KesPeriodMissing"),
+        ("KES signature verification error", "KesSignatureInvalid"),
+        ("party id does not exist", "PartyIdNonExisting"),
+        ("already been registered", "EntryAlreadyRegistered"),
+        ("concatenation key is invalid", "ConcatenationKeyInvalid"),
+        ("party id", "PartyIdMissing"),
+    ] {
+        if e.contains(needle) {
+            return class;
+        }
+    }
+    "other"
+}
+
+fn register(kr: &mut ProtocolKeyRegistration, t: &Typed) -> Real {
+    let params = SignerRegistrationParameters {
+        party_id: t.party_id.clone(),
+        operational_certificate: t.opcert.clone(),
+        verification_key_for_concatenation: t.key,
+        verification_key_signature_for_concatenation: t.kes_sig,
+        kes_evolutions: t.announced,
+    };
+    match catch(|| kr.register(params)) {
+        Ok(Ok(id)) => Real::Accepted(id),
+        Ok(Err(e)) => Real::Rejected(format!("{e:#}")),
+        Err(p) => Real::Panicked(format!("{p} at {}", mc_core::last_panic_location())),
+    }
+}
+
+/// The call sequence of `MithrilSignerRegistrationVerifier::verify`
+/// (mithril-aggregator/src/services/signer_registration/verifier.rs), with the chain observer's
+/// answer passed in.
+fn verifier_mirror(signer: &Signer, stake_distribution: &StakeDistribution, chain_kes_period: Option<KesPeriod>) -> StdResult<SignerWithStake> {
+    let mut key_registration =
+        ProtocolKeyRegistration::init(&stake_distribution.iter().map(|(k, v)| (k.to_owned(), *v)).collect::<Vec<_>>());
+    let party_id_register = match signer.party_id.as_str() {
+        "" => None,
+        party_id => Some(party_id.to_string()),
+    };
+    let kes_evolutions = signer
+        .operational_certificate
+        .as_ref()
+        .map(|operational_certificate| chain_kes_period.unwrap_or_default() - operational_certificate.get_start_kes_period());
+    let party_id_registered = key_registration.register(SignerRegistrationParameters {
+        party_id: party_id_register.clone(),
+        operational_certificate: signer.operational_certificate.clone(),
+        verification_key_signature_for_concatenation: signer.verification_key_signature_for_concatenation,
+        kes_evolutions,
+        verification_key_for_concatenation: signer.verification_key_for_concatenation,
+    })?;
+    let party_id_registered_stake =
+        *stake_distribution.get(&party_id_registered).ok_or_else(|| anyhow::anyhow!("Stake not found for party_id: '{party_id_registered}"))?;
+    Ok(SignerWithStake { party_id: party_id_registered, ..SignerWithStake::from_signer(signer.to_owned(), party_id_registered_stake) })
+}
+
+struct FixedKesSigner(Sum6KesSig, OpCert);
+impl KesSigner for FixedKesSigner {
+    fn sign(&self, _message: &[u8], _current_kes_period: KesPeriod) -> StdResult<(Sum6KesSig, OpCert)> {
+        Ok((self.0, self.1.clone()))
+    }
+}
+
+/// is (key of `seed`, `stake`) an entry of the builder's closed registration?
+fn builder_has_entry(m: &Mat, builder: &SignerBuilder, seed: u8, stake: u64) -> bool {
+    let p = &m.pools[0];
+    let dummy_sig = Sum6KesSig::from_bytes(&kes_sign(p, 0, b"x")).unwrap();
+    let dummy_cert = OpCert::new(kes_summed_ed25519::PublicKey::from_bytes(&p.kes_vk).unwrap(), p.issue, KesPeriod(p.start), p.cold_sk.clone());
+    let mut rng = ChaCha20Rng::from_seed([seed; 32]);
+    let Ok(init) = ProtocolInitializer::setup(stm_params(), Some(Arc::new(FixedKesSigner(dummy_sig, dummy_cert))), Some(KesPeriod(0)), stake, &mut rng) else {
+        return false;
+    };
+    builder.restore_signer_from_initializer("probe".into(), init).is_ok()
+}
+
+// ------------------------------------------------------------------------------------------------
+// oracle
+// ------------------------------------------------------------------------------------------------
+
+fn arr<const N: usize>(v: &[u8]) -> Option<[u8; N]> {
+    v.try_into().ok()
+}
+
+/// the reference predicate on one registration; `key_bytes` are the canonical bytes of the decoded
+/// key (vk ‖ k1 ‖ k2), `announced` the evolution the verification is asked to use
+fn reference(raw: &Raw, key_bytes: &[u8], announced: Option<u64>, dist: &BTreeMap<String, u64>, registered: &[Vec<u8>]) -> rf::Verdict {
+    let mut v = rf::Verdict {
+        has_opcert: raw.cert.is_some(),
+        opcert_signed: false,
+        has_kes_sig: raw.kes_sig.is_some(),
+        has_announced: announced.is_some(),
+        kes_evolution: None,
+        pop_valid: true,
+        pool_id: None,
+        stake: None,
+        not_duplicate: !registered.iter().any(|k| k[..] == key_bytes[..96]),
+    };
+    if let Some(c) = &raw.cert
+        && let (Some(cold), Some(kes_vk), Some(sig)) = (arr::<32>(&c.cold_vk), arr::<32>(&c.kes_vk), arr::<64>(&c.cert_sig))
+    {
+        v.opcert_signed = rf::opcert_signed_by_cold_key(&cold, &kes_vk, c.issue_number, c.start_kes_period, &sig);
+        let id = rf::pool_id(&cold);
+        v.stake = dist.get(&id).copied();
+        v.pool_id = Some(id);
+        if let (Some(s), Some(a)) = (&raw.kes_sig, announced) {
+            v.kes_evolution = rf::kes_evolution_within_one(&kes_vk, s, key_bytes, a);
+        }
+    }
+    // the pairing check is evaluated only when it decides the verdict, and memoised per thread
+    if v.first_failing().is_none() {
+        v.pop_valid = pop_valid_memo(key_bytes);
+    }
+    v
+}
+
+fn pop_valid_memo(key_bytes: &[u8]) -> bool {
+    use std::cell::RefCell;
+    use std::collections::HashMap;
+    thread_local! {
+        static MEMO: RefCell<HashMap<Vec<u8>, bool>> = RefCell::new(HashMap::new());
+    }
+    MEMO.with(|m| {
+        if let Some(b) = m.borrow().get(key_bytes) {
+            return *b;
+        }
+        let b = rf::pop_valid(&key_bytes[..96], &key_bytes[96..144], &key_bytes[144..]);
+        m.borrow_mut().insert(key_bytes.to_vec(), b);
+        b
+    })
+}
+
+fn violation_key(raw: &Raw, key_bytes: &[u8], announced: Option<u64>, failing: &str) -> (String, String) {
+    match failing {
+        "no-operational-certificate" => ("C07/accepted-without-operational-certificate".into(), String::new()),
+        "opcert-not-signed-by-cold-key" => ("C07/accepted-opcert-not-signed-by-cold-key".into(), String::new()),
+        "no-kes-signature" => ("C07/accepted-without-kes-signature".into(), String::new()),
+        "no-announced-evolution" => ("C07/accepted-without-announced-evolution".into(), String::new()),
+        "kes-signature" => {
+            let c = raw.cert.as_ref().unwrap();
+            let at = rf::kes_all_evolutions(&arr::<32>(&c.kes_vk).unwrap(), raw.kes_sig.as_ref().unwrap(), key_bytes);
+            let a = announced.unwrap();
+            if at.is_empty() {
+                ("C07/accepted-kes-signature-not-over-the-key-by-the-certified-kes-key".into(), String::new())
+            } else if at == [rf::SUM6_EVOLUTIONS - 1] && a == rf::SUM6_EVOLUTIONS as u64 + 1 {
+                (
+                    "C07/kes-window:announced-65-accepts-signature-of-evolution-63".into(),
+                    format!("the KES signature verifies at evolution {at:?} only, announced {a}"),
+                )
+            } else {
+                ("C07/accepted-outside-kes-evolution-window".into(), format!("the KES signature verifies at evolution {at:?} only, announced {a}"))
+            }
+        }
+        "invalid-proof-of-possession" => ("C07/accepted-invalid-proof-of-possession".into(), String::new()),
+        "pool-not-in-stake-distribution" => ("C07/accepted-pool-not-in-stake-distribution".into(), String::new()),
+        "key-already-registered" => ("C07/accepted-key-already-registered".into(), String::new()),
+        other => (format!("C07/accepted-{other}"), String::new()),
+    }
+}
+
+fn dist_map(d: &[(String, u64)]) -> BTreeMap<String, u64> {
+    // later entries win, as in a map built from a list
+    d.iter().cloned().collect()
+}
+
+fn replay_of(case: &Case, index: usize) -> Value {
+    json!({"case": case, "index": index})
+}
+
+fn judge(
+    rep: &mut Report,
+    case: &Case,
+    idx: usize,
+    reg: &Reg,
+    key_bytes: &[u8],
+    announced: Option<u64>,
+    v: &rf::Verdict,
+    real: &Real,
+    completeness: bool,
+) {
+    let accepted = matches!(real, Real::Accepted(_));
+    // vacuity bookkeeping: label by the first conjunct that fails in the reference
+    match (accepted, v.first_failing()) {
+        (true, _) => rep.outcome("accepted"),
+        (false, Some(f)) => rep.outcome(&format!("rejected:{f}")),
+        (false, None) => rep.outcome("rejected-though-reference-holds"),
+    }
+    match real {
+        Real::Rejected(e) => rep.add_extra(&format!("error_kind:{}", classify_error(e)), 1),
+        Real::Panicked(_) => rep.add_extra("panics_observed", 1),
+        _ => {}
+    }
+    // non-trivial: decodes, carries a certificate whose signature is genuine (so the verification
+    // goes beyond the first gate), or is accepted
+    if accepted || v.opcert_signed {
+        rep.nontrivial(&(case.route.clone(), &case.dist, &reg.raw, announced, idx));
+    }
+    if let Real::Accepted(id) = real {
+        if let Some(f) = v.first_failing() {
+            let (key, detail) = violation_key(&reg.raw, key_bytes, announced, f);
+            rep.violation(
+                &key,
+                format!(
+                    "registration accepted (as '{id}') although the reference conjunct '{f}' is false. {detail} [{} / {} / registration #{idx}]",
+                    case.family, case.label
+                ),
+                replay_of(case, idx),
+            );
+        } else if v.pool_id.as_deref() != Some(id.as_str()) {
+            rep.violation(
+                "C07/party-id-not-derived-from-cold-key",
+                format!("registered as '{id}', the pool id of the cold key is {:?} [{} / {}]", v.pool_id, case.family, case.label),
+                replay_of(case, idx),
+            );
+        }
+    } else if completeness && reg.honest && v.holds() {
+        let why = match real {
+            Real::Rejected(e) => e.clone(),
+            Real::Panicked(p) => format!("panic: {p}"),
+            _ => unreachable!(),
+        };
+        rep.violation(
+            "C07/honest-registration-rejected",
+            format!("an honest registration is rejected: {why} [{} / {}]", case.family, case.label),
+            replay_of(case, idx),
+        );
+    }
+    // sanity of the generator/reference pair on the plainly honest cases
+    let plainly_honest = matches!(case.family.as_str(), "window" | "splice") || (case.family == "ball" && case.label.ends_with(": honest"));
+    if reg.honest && idx == 0 && !v.holds() && plainly_honest {
+        rep.machinery_error(format!("reference rejects a registration the generator calls honest ({:?}): {} / {}", v.first_failing(), case.family, case.label));
+    }
+}
+
+fn run_register(m: &Mat, case: &Case, rep: &mut Report) {
+    let dmap = dist_map(&case.dist);
+    let mut kr = ProtocolKeyRegistration::init(&case.dist);
+    // keys accepted by the real code so far, with what the reference expects to be recorded
+    let mut accepted: Vec<(Vec<u8>, Option<u64>)> = vec![];
+    for (idx, reg) in case.regs.iter().enumerate() {
+        rep.eval();
+        let typed = match catch(|| decode(&reg.raw)) {
+            Ok(Ok(t)) => t,
+            Ok(Err(_)) => {
+                rep.outcome("undecodable");
+                continue;
+            }
+            Err(_) => {
+                rep.outcome("undecodable");
+                rep.add_extra("panics_observed", 1);
+                continue;
+            }
+        };
+        let key_bytes = typed.key.to_bytes().to_vec();
+        if key_bytes[..] != [&reg.raw.vk[..], &reg.raw.k1[..], &reg.raw.k2[..]].concat()[..] {
+            rep.add_extra("noncanonical_key_encodings_decoded", 1);
+        }
+        let registered: Vec<Vec<u8>> = accepted.iter().map(|(k, _)| k.clone()).collect();
+        let v = reference(&reg.raw, &key_bytes, reg.raw.announced, &dmap, &registered);
+        let real = register(&mut kr, &typed);
+        judge(rep, case, idx, reg, &key_bytes, reg.raw.announced, &v, &real, true);
+        if let Real::Accepted(_) = real {
+            accepted.push((key_bytes[..96].to_vec(), v.stake));
+            observe(m, case, reg, &v, rep);
+        }
+        if rep.samples.len() < 2 && idx == 0 && (case.family == "window" || case.family == "splice") && v.opcert_signed {
+            rep.sample(json!({"family": case.family, "label": case.label, "accepted": matches!(real, Real::Accepted(_)), "reference_first_failing": v.first_failing()}));
+        }
+    }
+    if accepted.is_empty() {
+        return;
+    }
+    // what was recorded
+    match catch(|| kr.close(&stm_params())) {
+        Ok(Ok(closed)) => {
+            let recorded: Vec<(Vec<u8>, u64)> = closed
+                .closed_registration_entries
+                .iter()
+                .map(|e| (e.get_verification_key_for_concatenation().to_bytes().to_vec(), e.get_stake()))
+                .collect();
+            for (k, expected) in &accepted {
+                let Some(expected) = expected else { continue }; // already reported as pool-not-in-distribution
+                match recorded.iter().filter(|(rk, _)| rk == k).map(|(_, s)| *s).collect::<Vec<_>>().as_slice() {
+                    [s] if s == expected => rep.add_extra("recorded_stakes_checked", 1),
+                    [] => rep.violation(
+                        "C07/accepted-key-not-recorded",
+                        format!("an accepted key is not in the closed registration [{} / {}]", case.family, case.label),
+                        replay_of(case, 0),
+                    ),
+                    other => rep.violation(
+                        "C07/recorded-stake-not-from-distribution",
+                        format!("stake recorded for the key: {other:?}, the distribution's value for its pool: {expected} [{} / {}]", case.family, case.label),
+                        replay_of(case, 0),
+                    ),
+                }
+            }
+            if recorded.len() != accepted.len() {
+                rep.violation(
+                    "C07/recorded-entries-differ-from-accepted",
+                    format!("{} entries recorded, {} registrations accepted [{} / {}]", recorded.len(), accepted.len(), case.family, case.label),
+                    replay_of(case, 0),
+                );
+            }
+        }
+        Ok(Err(e)) => rep.add_extra(&format!("close_failed:{}", if format!("{e:#}").contains("overflow") { "overflow" } else { "zero-or-other" }), 1),
+        Err(_) => rep.add_extra("panics_observed", 1),
+    }
+}
+
+/// observations that are not verdicts
+fn observe(m: &Mat, case: &Case, reg: &Reg, v: &rf::Verdict, rep: &mut Report) {
+    if case.family == "rogue-key" && reg.raw.vk == m.rogue.vk {
+        rep.add_extra("observation:pop_assembled_from_public_values_accepted", 1);
+        if POP_FORGERY_IS_VIOLATION {
+            rep.violation(
+                "C07/pop-not-bound-to-key",
+                format!("a key whose secret nobody knows is registered with a proof of possession computed from public values [{}]", case.label),
+                replay_of(case, case.regs.len() - 1),
+            );
+        }
+    }
+    if case.family == "weak-cold-key" {
+        rep.add_extra("observation:neutral_element_cold_key_accepted", 1);
+    }
+    if case.family == "sequence" && v.holds() {
+        rep.add_extra("sequence_registrations_accepted", 1);
+    }
+}
+
+fn run_verifier(m: &Mat, case: &Case, chain: Option<u64>, rep: &mut Report) {
+    let dmap = dist_map(&case.dist);
+    let sd: StakeDistribution = dmap.clone();
+    let mut records: Vec<SignerWithStake> = vec![];
+    let mut keys_seen: Vec<Vec<u8>> = vec![];
+    for (idx, reg) in case.regs.iter().enumerate() {
+        rep.eval();
+        let Ok(Ok(t)) = catch(|| decode(&reg.raw)) else {
+            rep.outcome("undecodable");
+            continue;
+        };
+        let key_bytes = t.key.to_bytes().to_vec();
+        // the evolution the aggregator verifies against: chain period − start period (its own,
+        // saturating, arithmetic is followed here and reported as an observation)
+        let announced = reg.raw.cert.as_ref().map(|c| chain.unwrap_or(0).saturating_sub(c.start_kes_period));
+        let v = reference(&reg.raw, &key_bytes, announced, &dmap, &[]);
+        let signer = Signer {
+            party_id: t.party_id.clone().unwrap_or_default(),
+            verification_key_for_concatenation: t.key,
+            verification_key_signature_for_concatenation: t.kes_sig,
+            operational_certificate: t.opcert.clone(),
+            kes_evolutions: t.announced,
+        };
+        let res = catch(|| verifier_mirror(&signer, &sd, chain.map(KesPeriod)));
+        let real = match &res {
+            Ok(Ok(r)) => Real::Accepted(r.party_id.clone()),
+            Ok(Err(e)) => Real::Rejected(format!("{e:#}")),
+            Err(p) => Real::Panicked(p.clone()),
+        };
+        judge(rep, case, idx, reg, &key_bytes, announced, &v, &real, true);
+        if let Ok(Ok(rec)) = res {
+            if let Some(expected) = v.stake
+                && rec.stake != expected
+            {
+                rep.violation(
+                    "C07/recorded-stake-not-from-distribution",
+                    format!("the record carries stake {}, the distribution's value is {expected} [{} / {}]", rec.stake, case.family, case.label),
+                    replay_of(case, idx),
+                );
+            }
+            if let Some(c) = &reg.raw.cert
+                && chain.unwrap_or(0) < c.start_kes_period
+            {
+                rep.add_extra("observation:verifier_accepts_certificate_starting_after_chain_period", 1);
+            }
+            if reg.raw.announced != announced {
+                rep.add_extra("observation:verifier_accepts_and_stores_unverified_message_evolutions", 1);
+            }
+            if keys_seen.iter().any(|k| k[..] == key_bytes[..96]) {
+                rep.add_extra("observation:verifier_accepts_key_already_accepted_for_another_pool", 1);
+            }
+            keys_seen.push(key_bytes[..96].to_vec());
+            // what SignerBuilder::new makes of the stored record
+            let alone = catch(|| SignerBuilder::new(&[rec.clone()], &m.params).map(|_| ()));
+            match alone {
+                Ok(Ok(())) => rep.add_extra("verifier_records_accepted_by_signer_builder", 1),
+                Ok(Err(e)) => {
+                    rep.add_extra("observation:verifier_record_rejected_by_signer_builder", 1);
+                    if !rep.extras.contains_key("observation_example:verifier_record_rejected_by_signer_builder") {
+                        rep.extra(
+                            "observation_example:verifier_record_rejected_by_signer_builder",
+                            json!({"label": case.label, "stored_kes_evolutions": rec.kes_evolutions.map(|k| k.0), "verified_against": announced, "error": classify_error(&format!("{e:#}"))}),
+                        );
+                    }
+                }
+                Err(_) => rep.add_extra("panics_observed", 1),
+            }
+            records.push(rec);
+        }
+    }
+    if records.len() >= 2 {
+        match catch(|| SignerBuilder::new(&records, &m.params).map(|_| ())) {
+            Ok(Ok(())) => rep.add_extra("verifier_record_sets_accepted_by_signer_builder", 1),
+            Ok(Err(e)) => {
+                rep.add_extra("observation:verifier_record_set_rejected_by_signer_builder", 1);
+                rep.extra("observation_example:verifier_record_set_rejected_by_signer_builder", json!({"label": case.label, "error": classify_error(&format!("{e:#}"))}));
+            }
+            Err(_) => rep.add_extra("panics_observed", 1),
+        }
+    }
+}
+
+fn run_builder(m: &Mat, case: &Case, rep: &mut Report) {
+    rep.eval();
+    let mut list: Vec<SignerWithStake> = vec![];
+    let mut keys: Vec<Vec<u8>> = vec![];
+    for reg in &case.regs {
+        let Ok(Ok(t)) = catch(|| decode(&reg.raw)) else {
+            rep.outcome("undecodable");
+            return;
+        };
+        keys.push(t.key.to_bytes().to_vec());
+        list.push(SignerWithStake {
+            party_id: t.party_id.clone().unwrap_or_default(),
+            verification_key_for_concatenation: t.key,
+            verification_key_signature_for_concatenation: t.kes_sig,
+            operational_certificate: t.opcert.clone(),
+            kes_evolutions: t.announced,
+            stake: reg.claimed_stake.unwrap_or(0),
+        });
+    }
+    // here the stake distribution is what the list itself says
+    let list_dist: Vec<(String, u64)> = list.iter().map(|s| (s.party_id.clone(), s.stake)).collect();
+    let dmap = dist_map(&list_dist);
+    let ambiguous = list_dist.iter().any(|(id, s)| dmap.get(id) != Some(s));
+    let mut verdicts = vec![];
+    let mut registered: Vec<Vec<u8>> = vec![];
+    for (reg, kb) in case.regs.iter().zip(&keys) {
+        let v = reference(&reg.raw, kb, reg.raw.announced, &dmap, &registered);
+        registered.push(kb[..96].to_vec());
+        verdicts.push(v);
+    }
+    let res = catch(|| SignerBuilder::new(&list, &m.params));
+    let all_hold = verdicts.iter().all(|v| v.holds());
+    let all_honest = case.regs.iter().all(|r| r.honest);
+    if verdicts.iter().any(|v| v.opcert_signed) {
+        rep.nontrivial(&("builder", &case.regs));
+    }
+    match res {
+        Ok(Ok(builder)) => {
+            rep.outcome("accepted");
+            if let Some((idx, v)) = verdicts.iter().enumerate().find(|(_, v)| !v.holds()) {
+                let f = v.first_failing().unwrap();
+                let (key, detail) = violation_key(&case.regs[idx].raw, &keys[idx], case.regs[idx].raw.announced, f);
+                rep.violation(
+                    &key,
+                    format!("SignerBuilder::new accepts a list whose record #{idx} fails the reference conjunct '{f}'. {detail} [builder / {}]", case.label),
+                    replay_of(case, idx),
+                );
+            } else if !ambiguous {
+                // the stake recorded for each key is the list-distribution's value for the pool of its cold key
+                let expected_total: u128 = verdicts.iter().map(|v| v.stake.unwrap_or(0) as u128).sum();
+                let total = builder.compute_aggregate_verification_key().to_concatenation_aggregate_verification_key().get_total_stake();
+                if total as u128 != expected_total {
+                    rep.violation(
+                        "C07/recorded-stake-not-from-distribution",
+                        format!("total stake of the registration is {total}, expected {expected_total} [builder / {}]", case.label),
+                        replay_of(case, 0),
+                    );
+                }
+                for (reg, v) in case.regs.iter().zip(&verdicts) {
+                    if let Some(seed) = seed_of_key(m, &reg.raw.vk) {
+                        let expected = v.stake.unwrap();
+                        if !builder_has_entry(m, &builder, seed, expected) {
+                            rep.violation(
+                                "C07/recorded-stake-not-from-distribution",
+                                format!("no entry (key, {expected}) in the registration built from the list [builder / {}]", case.label),
+                                replay_of(case, 0),
+                            );
+                        } else {
+                            rep.add_extra("recorded_stakes_checked", 1);
+                        }
+                    }
+                }
+            }
+        }
+        Ok(Err(e)) => {
+            let f = verdicts.iter().find_map(|v| v.first_failing());
+            match f {
+                Some(f) => rep.outcome(&format!("rejected:{f}")),
+                None => rep.outcome("rejected-though-reference-holds"),
+            }
+            if all_hold && all_honest {
+                rep.violation(
+                    "C07/honest-registration-rejected",
+                    format!("SignerBuilder::new rejects a list of honest records: {e:#} [builder / {}]", case.label),
+                    replay_of(case, 0),
+                );
+            }
+        }
+        Err(_) => {
+            rep.outcome("panic");
+            rep.add_extra("panics_observed", 1);
+        }
+    }
+}
+
+fn seed_of_key(m: &Mat, vk: &[u8]) -> Option<u8> {
+    m.pools.iter().map(|p| &p.bls).chain([&m.fresh]).find(|k| k.vk[..] == vk[..]).map(|k| k.seed)
+}
+
+fn run_case(m: &Mat, case: &Case) -> Report {
+    let mut rep = Report::new("exploration", "");
+    match &case.route {
+        Route::Register => run_register(m, case, &mut rep),
+        Route::Verifier { chain_kes_period } => run_verifier(m, case, *chain_kes_period, &mut rep),
+        Route::Builder => run_builder(m, case, &mut rep),
+    }
+    rep
+}
+
+// ------------------------------------------------------------------------------------------------
+
+pub fn run(ctx: &Ctx) -> ! {
+    let mut rep = Report::new(
+        "exploration",
+        "every registration of the generated space (A/B splices of all components; every single — and within the stated bases \
+         every pair of — component deviations from an honest registration, for an outsider and for the pool operator re-signing \
+         with its own keys; signing evolution × announced evolution; stake distribution variants; sequences of registrations) is \
+         decoded by the real decoders and given to the real ProtocolKeyRegistration::register / the aggregator verifier's call \
+         sequence / SignerBuilder::new; a case is non-trivial when its operational certificate is genuinely signed (the \
+         verification goes beyond its first gate) or it is accepted; distinct = distinct (route, distribution, registration)",
+    );
+    if let Err(e) = rf::self_test() {
+        rep.machinery_error(e);
+        rep.finish(ctx);
+    }
+    let m = material();
+
+    if let Some(path) = &ctx.replay {
+        let v = mc_core::load_replay(path);
+        let case: Case = match serde_json::from_value(v["case"].clone()) {
+            Ok(c) => c,
+            Err(e) => {
+                rep.machinery_error(format!("replay file does not hold a case: {e}"));
+                rep.finish(ctx);
+            }
+        };
+        rep.merge(run_case(&m, &case));
+        rep.nontrivial(&0);
+        rep.nontrivial(&1);
+        rep.finish(ctx);
+    }
+
+    cross_check_with_real_signer(ctx, &m, &mut rep);
+
+    let thorough = ctx.tier.pick(false, true);
+    type Job = Box<dyn Fn(&Mat, &mut Vec<Case>) + Sync + Send>;
+    let mut jobs: Vec<Job> = vec![];
+    // signing evolution × announced evolution
+    for p in 0..2usize {
+        for t in 0..64u32 {
+            jobs.push(Box::new(move |m, out| family_window(m, p, &[t], out)));
+        }
+    }
+    // A/B splices
+    let splice_ts: Vec<u32> = if thorough { vec![0, 1, 5, 62, 63] } else { vec![1] };
+    for &t in &splice_ts {
+        for lo in (0u32..256).step_by(8) {
+            jobs.push(Box::new(move |m, out| family_splice(m, t, lo..lo + 8, out)));
+        }
+    }
+    // deviation balls
+    let ball_ts: Vec<u32> = vec![0, 1, 5, 62, 63];
+    let n_devs = deviations(0, 1).len();
+    let mut ball_bounds = vec![];
+    for p in 0..2usize {
+        for &t in &ball_ts {
+            let depth = if thorough || (p == 0 && t == 1) || (p == 1 && t == 63) { 2 } else { 1 };
+            ball_bounds.push(json!({"pool": m.pools[p].name, "signed_at": t, "simultaneous_deviations": depth, "single_deviations": deviations(p, t).len()}));
+            for operator in [false, true] {
+                if !operator {
+                    jobs.push(Box::new(move |m, out| family_ball(m, p, t, depth, operator, None, out)));
+                }
+                for i in 0..deviations(p, t).len() {
+                    jobs.push(Box::new(move |m, out| family_ball(m, p, t, depth, operator, Some(i), out)));
+                }
+            }
+        }
+    }
+    jobs.push(Box::new(family_dist));
+    let seq_len = if thorough { 3 } else { 2 };
+    jobs.push(Box::new(move |m, out| family_sequence(m, seq_len, out)));
+    jobs.push(Box::new(family_weak));
+    jobs.push(Box::new(family_rogue));
+    for p in 0..2usize {
+        for t in [1u32, 62, 63] {
+            jobs.push(Box::new(move |m, out| family_verifier(m, p, &[t], out)));
+        }
+    }
+    jobs.push(Box::new(family_verifier_same_key));
+    jobs.push(Box::new(family_builder));
+
+    rep.extra(
+        "bounds",
+        json!({
+            "pools": ["A (in distribution)", "B (in distribution)", "C (outsider)"],
+            "splice_signing_evolutions": splice_ts,
+            "splice_components": "cold key, certificate KES key, issue number, start period, key, k1, k2, claimed party id (2 values each) × certificate signature (4) × KES signature (4)",
+            "ball_bases": ball_bounds,
+            "single_deviations_per_base": n_devs,
+            "window": "signing evolution 0..=63 × announced {0..=70, 2^32-2..2^32+1, 2^63, 2^64-2, 2^64-1, missing} × {A,B}",
+            "sequence_length": seq_len,
+            "stake_distributions": DISTS,
+        }),
+    );
+
+    // cases are generated and executed job by job (deterministic order of the merged reports)
+    let parts = par_map(&jobs, ctx.threads(), |_, job| {
+        let mut cases = vec![];
+        job(&m, &mut cases);
+        let mut r = Report::new("exploration", "");
+        for c in &cases {
+            r.add_extra(&format!("cases:{}", c.family), 1);
+            r.merge(run_case(&m, c));
+        }
+        r
+    });
+    for p in parts {
+        rep.merge(p);
+    }
+
+    rep.assume(
+        "mithril-common is built with its default features: `allow_skip_signer_certification` is off, so a registration without \
+         operational certificate must be refused (an acceptance is reported as a violation of the property's first conjunct)",
+    );
+    rep.assume(
+        "the aggregator crate is not linked: the 'verifier' family executes a copy of the call sequence of \
+         MithrilSignerRegistrationVerifier::verify (ProtocolKeyRegistration::init on the round's stake distribution, claimed party \
+         id \"\" → None, KES evolutions = chain KES period − certificate start period with the repository's saturating \
+         subtraction, register, stake looked up by the returned party id, SignerWithStake::from_signer) with the chain observer's \
+         answer as a parameter; the aggregator's own route is exercised by the aggregator checks",
+    );
+    rep.assume(
+        "trusted base of the oracle: ed25519-dalek (non-strict `verify`, as RFC 8032 permits), kes-summed-ed25519 at evolutions \
+         0..=63 only, blake2, blst pairings; the proof of possession is taken to be valid when e(k1,g2)=e(H_G1(\"PoP\"),vk) and \
+         e(g1,vk)=e(k2,g2) hold for decodable points (no subgroup requirement on k1,k2, no binding of the hashed message to the \
+         key) — see observation:pop_assembled_from_public_values_accepted",
+    );
+    rep.assume(
+        "the KES message is the canonical encoding (vk ‖ k1 ‖ k2, 192 bytes) of the decoded key; on the SignerBuilder route the \
+         stake distribution is the (party id, stake) list of the records themselves, as SignerBuilder::new defines it",
+    );
+    rep.assume("completeness is demanded only for announced evolution = signing evolution (acceptance at ±1 is counted, not required)");
+    rep.finish(ctx)
 }
